@@ -8,6 +8,7 @@ import (
 	"os"
 	"os/exec"
 	"path/filepath"
+	"sort"
 	"strconv"
 	"strings"
 	"sync/atomic"
@@ -209,4 +210,37 @@ func splitPosn(p string) (string, int, int) {
 	col, _ := strconv.Atoi(parts[len(parts)-1])
 	line, _ := strconv.Atoi(parts[len(parts)-2])
 	return strings.Join(parts[:len(parts)-2], ":"), line, col
+}
+
+// PerPackageJSON canonicalises `-json` output per package ID, preserving the
+// order of diagnostics inside each analyzer's array (so that a change of
+// report order is visible) and making file names relative to dir.
+func PerPackageJSON(stdout, dir string) (map[string]string, error) {
+	out := map[string]string{}
+	dec := json.NewDecoder(strings.NewReader(stdout))
+	real, err := filepath.EvalSymlinks(dir)
+	if err != nil {
+		real = dir
+	}
+	for dec.More() {
+		var tree map[string]map[string]json.RawMessage
+		if err := dec.Decode(&tree); err != nil {
+			return nil, err
+		}
+		for pkg, byAn := range tree {
+			var names []string
+			for an := range byAn {
+				names = append(names, an)
+			}
+			sort.Strings(names)
+			var b strings.Builder
+			for _, an := range names {
+				txt := strings.ReplaceAll(string(byAn[an]), real+"/", "")
+				txt = strings.ReplaceAll(txt, dir+"/", "")
+				fmt.Fprintf(&b, "%s=%s\n", an, txt)
+			}
+			out[pkg] += b.String()
+		}
+	}
+	return out, nil
 }
